@@ -26,7 +26,8 @@ META = {
         "not-yet-imported stdlib modules) x positions (document root, extra section, pipeline element, inside the "
         "arguments of a lazily and of an eagerly evaluated registered tag in mapping and sequence form, nested two "
         "levels deep, behind an anchor/alias, as a key of a plain mapping and of the mapping directly under a lazy / eager "
-        "registered tag, as the value of a merge key, inside the logging section); quick runs a seeded "
+        "registered tag, as the value of a merge key, as a tag on the top-level mapping that holds the sections, in a value that a repeated key "
+        "(or a repeated section) replaces, inside the logging section); quick runs a seeded "
         "slice of the product, thorough all of it. Non-trivial = every hostile document; distinct by text."
     ),
     "assumptions": [
@@ -103,6 +104,11 @@ POSITIONS = {
     "lazy_tag_mapping_key": "pipeline:\n  - !VDeco {? %(h)s : 1}\n  - !VPool\n",
     "eager_tag_mapping_key": "pipeline:\n  - !VDeco\n  - !VPoolNow {? %(h)s : 1}\n",
     "merge_value": "pipeline:\n  - !VPool {<<: %(h)s, b: 2}\n",
+    "root_tag_on_sections": "--- %(tag)s\npipeline:\n  - !VPool\nvextra: {a: 1}\n",
+    "dup_key_lazy": "pipeline:\n  - !VDeco {a: %(h)s, a: 1}\n  - !VPool\n",
+    "dup_key_eager": "pipeline:\n  - !VDeco\n  - !VPoolNow {a: %(h)s, a: 1}\n",
+    "dup_key_plain": "pipeline:\n  - !VPool\nvextra: {a: {b: %(h)s, b: 1}}\n",
+    "dup_section": "vextra: %(h)s\npipeline:\n  - !VPool\nvextra: {b: 1}\n",
     "logging_section": "logging: {version: 1, x: %(h)s}\npipeline:\n  - !VPool\n",
     "shipped_tag_arg": "pipeline:\n  - !LinearController {rate: %(h)s}\n  - !VPool\n",
 }
@@ -114,8 +120,10 @@ def all_cases():
     cases = []
     for label, node in hostile_nodes():
         for pos, template in POSITIONS.items():
-            text = template % {"h": node}
-            if node.startswith("!py!"):
+            text = template % {"h": node, "tag": node.split(" ")[0]}
+            if node.startswith("!py!") and pos == "root_tag_on_sections":
+                text = "%TAG !py! tag:yaml.org,2002:python/\n" + text  # the template brings its own document marker
+            elif node.startswith("!py!"):
                 text = "%TAG !py! tag:yaml.org,2002:python/\n---\n" + text
             cases.append({"label": label, "position": pos, "text": text})
     return cases
@@ -247,7 +255,10 @@ def run_product(spec, result):
         hostile = hostile_nodes_by_label()[case["label"]]
         special = {"root": "{pipeline: [!VPool ]}", "pipeline_element": "!VDeco", "pipeline_tail": "!VPool", "mapping_key": "plainkey",
                    "lazy_tag_mapping_key": "plainkey", "eager_tag_mapping_key": "plainkey", "shipped_tag_arg": "2", "merge_value": "{a: 1}"}
-        twin = case["text"].replace(hostile, special.get(case["position"], BENIGN))
+        if case["position"] == "root_tag_on_sections":
+            twin = case["text"].replace("--- " + hostile.split(" ")[0], "---")
+        else:
+            twin = case["text"].replace(hostile, special.get(case["position"], BENIGN))
         vplug.reset()
         try:
             load_text(twin)
